@@ -166,6 +166,9 @@ func decodePollBody(eio int, jsonp bool, ctype string, body []byte) ([]ref.Packe
 // encodePost encodes packets for a data request.
 func (c *Client) encodePost(ps []ref.Packet) (body []byte, ctype string) {
 	if c.eio() == 4 {
+		if c.sp.JSONP {
+			return ref.EncodeJSONPForm(string(ref.EncodePayloadV4(ps))), "application/x-www-form-urlencoded"
+		}
 		return ref.EncodePayloadV4(ps), "text/plain;charset=UTF-8"
 	}
 	b, bin := ref.EncodePayloadV3(ps, !c.sp.B64)
